@@ -39,7 +39,7 @@ from explorerscript.ssb_converting.compiler.compile_handlers.blocks.switches.def
     DefaultCaseBlockCompileHandler,
 )
 from explorerscript.ssb_converting.compiler.utils import CompilerCtx
-from explorerscript.ssb_converting.ssb_data_types import SsbOperation
+from explorerscript.ssb_converting.ssb_data_types import SsbOperation, SsbOpCode, SsbOpParam
 from explorerscript.ssb_converting.ssb_special_ops import (
     OP_MESSAGE_SWITCH_MONOLOGUE,
     OP_MESSAGE_SWITCH_TALK,
@@ -85,15 +85,32 @@ class MessageSwitchCompileHandler(
             value_blueprint = header_handler.collect()
             # We obviously don't want the bluprint
             value = value_blueprint.params[0]
-            case_ops.append(self._generate_operation(OP_CASE_TEXT, [value, string]))
+            case_ops.append(self._generate_case_operation(h, OP_CASE_TEXT, [value, string]))
         if self._default_handler:
             if not self._default_handler.is_message_case:
                 raise SsbCompilerError(
                     f(_("A message_ switch can only contain cases with strings (line {self.ctx.start.line})."))
                 )
-            case_ops.append(self._generate_operation(OP_DEFAULT_TEXT, [self._default_handler.get_text()]))
+            case_ops.append(
+                self._generate_case_operation(
+                    self._default_handler, OP_DEFAULT_TEXT, [self._default_handler.get_text()]
+                )
+            )
 
         return [switch_op] + case_ops
+
+    def _generate_case_operation(
+        self,
+        case_handler: CaseBlockCompileHandler | DefaultCaseBlockCompileHandler,
+        op_name: str,
+        params: list[SsbOpParam],
+    ) -> SsbOperation:
+        """Generates the operation for a case, the source map points to the case instead of the switch."""
+        op = SsbOperation(self.compiler_ctx.counter_ops(), SsbOpCode(-1, op_name), params)
+        self.compiler_ctx.source_map_builder.add_opcode(
+            op.offset, case_handler.ctx.start.line - 1, case_handler.ctx.start.column
+        )
+        return op
 
     def add(self, obj: _SupportedHandlers) -> None:
         if isinstance(obj, CaseBlockCompileHandler):
